@@ -133,6 +133,8 @@ def run(prop, tier, seed):
              timeout=14000)
     validate(prop, prop, trace, outcome)
     validate("DRIFT", prop, trace, outcome, verdict=False)
+    # behaviour beyond the listed properties: `ord wallet balance` against the wallet's outputs (notes only)
+    validate("VIEW", prop, trace, outcome, verdict=False)
     lines = [x for x in read_ndjson(trace) if x["event"] == "Op"]
     classes = {}
     nontrivial = set()
